@@ -46,11 +46,11 @@ type wdObs struct {
 }
 type wdLine struct {
 	Events []cnEvent `json:"events"`
-	Ev     string   `json:"ev"`
-	ID     int      `json:"id"`
-	Script wdScript `json:"script"`
-	Obs    wdObs    `json:"obs"`
-	Note   string   `json:"note"`
+	Ev     string    `json:"ev"`
+	ID     int       `json:"id"`
+	Script wdScript  `json:"script"`
+	Obs    wdObs     `json:"obs"`
+	Note   string    `json:"note"`
 }
 
 func buildDWA(hbh, e2e, rc uint32) []byte {
